@@ -635,7 +635,7 @@ func (r *runner) imagesOf(cop, ft string, bs []base, every bool) {
 		switch {
 		case nz == 0:
 			masks = []uint64{0}
-		case every && nz <= 4:
+		case every && nz <= 3:
 			for m := uint64(0); m < 1<<uint(nz); m++ {
 				masks = append(masks, m)
 			}
@@ -730,7 +730,7 @@ func baseOf(point string, o Op, bs []base, nthRemoved, removedTotal int) int {
 // durable state of the model for the same moment, reopened with the real code, and checked
 // against the property; where logs had been unlinked (not yet durable), every subset of them is
 // put back as well.
-func (r *runner) hookImages(o Op, bs []base, preDisk diskDesc) {
+func (r *runner) hookImages(o Op, bs []base, preDisk diskDesc, renameUndurable bool) {
 	snaps := r.hooked
 	r.hooked = nil
 	if len(snaps) == 0 {
@@ -778,6 +778,23 @@ func (r *runner) hookImages(o Op, bs []base, preDisk diskDesc) {
 		} else {
 			r.checkOracleOnly(s.Dir, "hook:"+s.Point, at, allowed, inflight)
 		}
+		// the directory sync after the watermark rename was made to fail: the rename is not durable,
+		// whatever the code does afterwards a crash may bring the previous watermark back
+		if renameUndurable && s.Point != "walstore:watermark:tmp-synced" && desc.Wm != preDisk.Wm {
+			r.real.nimg++
+			dst := filepath.Join(r.real.root, fmt.Sprintf("hookw%d", r.real.nimg))
+			if err := copyDir(walDirOf(s.Dir), walDirOf(dst)); err == nil {
+				wp := filepath.Join(walDirOf(dst), "prune-watermark")
+				if preDisk.Wm >= 0 {
+					_ = os.WriteFile(wp, wmBytes(uint64(preDisk.Wm)), 0o644)
+				} else {
+					_ = os.Remove(wp)
+				}
+				r.res.Hit("hook:watermark-rename-undone")
+				r.checkOracleOnly(dst, "hook-rename-undone:"+s.Point, map[string]any{"point": s.Point, "disk": desc.String(), "wm": preDisk.Wm}, allowed, inflight)
+			}
+			_ = os.RemoveAll(dst)
+		}
 		// logs unlinked since the operation began: the unlinks are not durable yet
 		present := map[uint64]bool{}
 		for _, f := range desc.Files {
@@ -824,6 +841,15 @@ func (r *runner) hookImages(o Op, bs []base, preDisk diskDesc) {
 				if ok {
 					r.res.Hit("hook:unlinked-logs-back")
 					r.checkOracleOnly(dst, "hook-unlinks-undone:"+s.Point, map[string]any{"point": s.Point, "disk": desc.String(), "back": gone, "mask": mk}, allowed, inflight)
+					if renameUndurable && desc.Wm != preDisk.Wm {
+						wp := filepath.Join(walDirOf(dst), "prune-watermark")
+						if preDisk.Wm >= 0 {
+							_ = os.WriteFile(wp, wmBytes(uint64(preDisk.Wm)), 0o644)
+						} else {
+							_ = os.Remove(wp)
+						}
+						r.checkOracleOnly(dst, "hook-unlinks-and-rename-undone:"+s.Point, map[string]any{"point": s.Point, "disk": desc.String(), "back": gone, "mask": mk, "wm": preDisk.Wm}, allowed, inflight)
+					}
 				}
 				_ = os.RemoveAll(dst)
 			}
@@ -1345,7 +1371,7 @@ func (r *runner) exec(o Op) {
 			r.imagesOf(o.K, o.F, bs, every || straddle)
 		}
 		if bs != nil {
-			r.hookImages(o, bs, preDisk)
+			r.hookImages(o, bs, preDisk, inj.injected && (inj.f == "wmsync" || inj.f == "wmsyncf"))
 		}
 		m := r.ask(o.String())
 		r.res.Compared(1)
@@ -1696,7 +1722,7 @@ func main() {
 	add("fault", f.Scale(300, 1600), lvl, func(g *lib.RNG) []Op { return genShort(g, true) })
 	add("gc", f.Scale(60, 300), f.Scale(0, 1), func(g *lib.RNG) []Op { return genGC(g, false) })
 	add("gcfault", f.Scale(24, 120), f.Scale(0, 1), func(g *lib.RNG) []Op { return genGC(g, true) })
-	for i := 0; i < f.Scale(40, 300)*len(cleanupFaultKinds); i++ {
+	for i := 0; i < f.Scale(22, 150)*len(cleanupFaultKinds); i++ {
 		kind := cleanupFaultKinds[i%len(cleanupFaultKinds)]
 		g := rng.Fork(uint64(len(jobs)))
 		jobs = append(jobs, job{name: fmt.Sprintf("cfault-%d", i), ops: genCleanupFault(g, kind), level: 1, serial: true, seed: g.Uint64()})
@@ -1708,7 +1734,7 @@ func main() {
 		if i%*shardsFlag != *shardFlag {
 			continue
 		}
-		if only := os.Getenv("VERIF_C14_ONLY"); only != "" && only != j.name {
+		if only := os.Getenv("VERIF_C14_ONLY"); only != "" && only != j.name && !strings.HasPrefix(j.name, only+"-") {
 			continue
 		}
 		runJob(j, f, res)
